@@ -531,6 +531,8 @@ func genAtom(g G, c *Corpus, o QueryOpts) (QSpec, []string) {
 			b := Pick(g, rr.Branches, "brb").Name
 			if g.Bool(10, "brnope") {
 				b = "nope"
+			} else if g.Bool(15, "brhead") {
+				b = "HEAD"
 			}
 			ids := []uint32{rr.ID}
 			if g.Bool(30, "brmore") {
